@@ -445,6 +445,10 @@ def _split_oracle(d, parts, nl, w):
                 if n.pos is None or n.pos_end is None or src[n.pos:n.pos_end] != n.chars or len(n.chars) == 0:
                     return ('split-positions', {'node': treedump.dump(n),
                                                 'source_slice': src[n.pos:n.pos_end] if n.pos is not None else None})
+    for p in parts:
+        bad = _api_verbatim(p, src, 'split')
+        if bad:
+            return bad
     # partition: the non-chars nodes are the original objects, in order, each exactly once
     orig_opaque = [n for n in nl.nodelist if not (n is None and skipn) and not (n is not None and _is_chars(n))]
     got_opaque = [n for p in parts for n in p.nodelist if not (n is not None and _is_chars(n))]
@@ -524,6 +528,10 @@ def _node_oracle(d, parts, nl, w):
         return ('splitnode-maxsplit', {'parts': len(parts), 'max_split': ms})
     if not parts:
         return ('splitnode-partition', {'observed': 'no parts'})
+    for p in parts:
+        bad = _api_verbatim(p, w.s, 'splitnode')
+        if bad:
+            return bad
     if ks:
         if len(flat) != len(items) or any(a is not b for a, b in zip(flat, items)):
             return ('splitnode-partition', {'observed': _dump_parts(parts)})
@@ -553,6 +561,19 @@ def _node_oracle(d, parts, nl, w):
     return None
 
 
+def _api_verbatim(x, src, what):
+    """the list's own latex_verbatim() is the concatenation of its nodes' source texts (the observation
+    point the property names); lists holding walker-less pieces cannot answer it and are skipped"""
+    try:
+        got = x.latex_verbatim()
+    except TypeError:
+        return None
+    exp = _verb(x, src)
+    if got != exp:
+        return (what + '-verbatim', {'expected': exp, 'observed': got, 'list': treedump.dump(x)})
+    return None
+
+
 def _filter_oracle(d, r, nl, w):
     from pylatexenc.latexnodes import nodes as N
     pr = None if d['pred'] is None else pred_fn(*d['pred'])
@@ -571,7 +592,7 @@ def _filter_oracle(d, r, nl, w):
         return ('filter-subsequence', {'expected': [treedump.dump(n) for n in exp], 'observed': treedump.dump(r)})
     if not got and (r.pos != nl.pos_end or r.pos_end != nl.pos_end):
         return ('filter-span', {'observed': treedump.dump(r)})
-    return None
+    return _api_verbatim(r, w.s, 'filter')
 
 
 def _keyval_oracle(d, got, nl, w, comma=None, eq=None, default=0, extract=True):
@@ -620,7 +641,7 @@ def _keyval_oracle(d, got, nl, w, comma=None, eq=None, default=0, extract=True):
     return exp
 
 
-def _keyval_check(d, r, exp):
+def _keyval_check(d, r, exp, src=None):
     from pylatexenc.latexnodes import nodes as N
     if isinstance(exp, tuple):          # expected exception
         if r[0] == 'exc' and (r[1] == exp[1] or (exp[1].startswith('LatexWalker') and r[1].startswith('ParseError'))):
@@ -638,6 +659,10 @@ def _keyval_check(d, r, exp):
         gv = list(got[k].nodelist)
         if len(gv) != len(v) or any(a is not b and treedump.dump(a) != treedump.dump(b) for a, b in zip(gv, v)):
             return ('keyval-values', {'key': k, 'expected': [treedump.dump(n) for n in v], 'observed': treedump.dump(got[k])})
+        if src is not None:
+            bad = _api_verbatim(got[k], src, 'keyval')
+            if bad:
+                return bad
     return None
 
 
@@ -666,7 +691,7 @@ def oracle(c):
     if fn == 'keyval':
         w, nl = build_list(d)
         exp = _keyval_oracle(d, None, nl, w, d['comma'], d['eq'], d['default'], d['extract'])
-        return _keyval_check(d, r, exp)
+        return _keyval_check(d, r, exp, w.s)
     if fn == 'argkv':
         from pylatexenc.latexnodes import SingleParsedArgumentInfo
         w, nl0 = _parse(d['s'])
@@ -677,7 +702,7 @@ def oracle(c):
         except Exception:
             return None
         exp = _keyval_oracle(d, None, content, w)
-        return _keyval_check(d, r, exp)
+        return _keyval_check(d, r, exp, w.s)
     if fn == 'aschars':
         if r[0] == 'exc':
             return None if r[1].startswith('ParseError') else ('aschars-exception:' + r[1], {})
